@@ -154,6 +154,8 @@ def sort_of(pt):
         return name
     if k in ('exc', 'mtag'):
         return INT
+    if k == 'map':
+        return ArrS(sort_of(pt.args[0]), sort_of(pt.args[1]))
     raise TypeError('no sort for %r' % (pt,))
 
 
@@ -255,6 +257,9 @@ def coerce(sv, pt):
         return SV(pt, sv.t)      # class hierarchy is checked by the caller
     if k == 'seq' and s == 'seq' and sv.t is not None and sv.t.op == 'seq.empty':
         return SV(pt, smt.Empty(sort_of(pt)))
+    if k == 'tuple' and s == 'pytuple' and len(pt.args) == len(sv.py):
+        parts = [coerce(sv.py[i], pt.args[i]).t for i in range(len(pt.args))]
+        return SV(pt, mk_tuple(pt, parts))
     if k == 'tuple' and s == 'tuple' and len(pt.args) == len(sv.pt.args):
         parts = [coerce(SV(sv.pt.args[i], tuple_get(sv.pt, sv.t, i)), pt.args[i]).t for i in range(len(pt.args))]
         return SV(pt, mk_tuple(pt, parts))
@@ -409,4 +414,6 @@ def parse_type(node, classes=None):
             return PT('ddict', args[0], args[1])
         if head == 'Set':
             return TSet(args[0])
+        if head == 'Map':         # ghost total map (SMT array value)
+            return PT('map', args[0], args[1])
     raise TypeError('bad type expression %s' % ast.dump(node))
